@@ -13,6 +13,7 @@ It holds for all histories iff nothing else writes the representation:
   C08.e  the same argument nodes are never embedded twice on one path without a copy.
   C08.f  leaf classes (is_primitive) are never constructed with a child node.
   C08.g  nodes looked up in a local dict are copied before they are embedded (typed lint).
+  C08.h  list arguments of nodes are flat (no list of lists; typed lint).
 Does not decide: index arithmetic inside set(index=...), hash collisions.
 """
 
@@ -757,7 +758,42 @@ def rule_g(ctx: Ctx) -> None:
     ctx.min_instances("functions_scanned", sum(1 for _ in ctx.repo.all_funcs()), 2000)
 
 
-RULES = [rule_a, rule_b, rule_c, rule_d, rule_e, rule_f, rule_g]
+def rule_h(ctx: Ctx) -> None:
+    ctx.rule("C08.h", "arguments of expression nodes are flat: no constructor / set / append site passes a list whose static element type is itself a list or tuple — "
+                      "Expr.__init__ / set only link the direct elements of a list, so nodes inside a nested list get no parent, and __hash__ raises TypeError on the inner list")
+    from ..typed import types
+
+    T = types(ctx.repo)
+    names = _expr_class_names(ctx)
+    n = 0
+    for m in ctx.repo.modules.values():
+        if m.name.startswith(("sqlglot.executor", "sqlglot.planner")):
+            continue
+        for c in m.of_type(ast.Call):
+            cn = (call_name(c) or "").split(".")[-1]
+            is_ctor = cn in names and cn[:1].isupper()
+            is_set = isinstance(c.func, ast.Attribute) and c.func.attr in ("set", "append") and len(c.args) >= 2
+            if not (is_ctor or is_set):
+                continue
+            vals = [(k.arg, k.value) for k in c.keywords if k.arg] if is_ctor else [(norm(c.args[0], 20), c.args[1])]
+            for key, v in vals:
+                ty = (T.of(m, v) or "").replace("builtins.", "")
+                if not ty.startswith("list["):
+                    continue
+                n += 1
+                inner = ty[5:]
+                f = m.enclosing_func(c)
+                where = f.key if f else m.name
+                if inner.startswith(("list[", "tuple[", "List[", "Tuple[")):
+                    ctx.fail(m, c, where, f"{cn}({key}=<{ty[:50]}>)",
+                             f"argument `{key}` is a nested list ({ty[:60]}): the nodes inside the inner lists are not linked to the tree (parent/arg_key stay None) and hashing / "
+                             f"comparing the node raises TypeError — wrap each inner list in a node (Tuple)")
+    ctx.ok("package|every list-typed argument is flat", {"list_typed_arguments": n})
+    ctx.count("list_typed_arguments", n)
+    ctx.min_instances("list_typed_arguments", n, 300)
+
+
+RULES = [rule_a, rule_b, rule_c, rule_d, rule_e, rule_f, rule_g, rule_h]
 EXPLANATION = (
     "Who-may-write analysis over the whole package: every store to the tree representation (args items, parent/arg_key/"
     "index/_hash, raw mutation of alias-tracked child lists) is enumerated and must lie in the primitives, be a provably "
